@@ -22,7 +22,7 @@
    and the structures that are not well-formed documents (their parts contradict each other, the
    format has no place for the distinction): tagged_blocks=None beside a layer info, layer_count=0
    with (empty) lists, opacity/kind without overlay colour, presence flag without parameters. *)
-From PsdV Require Import Base.Prelude Psd.Codec Psd.Model Psd.Proofs.
+From PsdV Require Import Base.Prelude Psd.Codec Psd.Model Psd.Proofs Psd.Leaf Psd.LeafProofs Psd.Descriptor Psd.DescriptorProofs Psd.Effects Psd.EffectsProofs.
 From Coq Require Import ZArith List Bool Lia.
 Import ListNotations.
 Open Scope Z_scope.
@@ -175,6 +175,132 @@ Theorem image_data_roundtrip : forall c bs n,
   wf_cd c = true -> write_image_data c = Ok (bs, n) -> read_image_data bs = Ok c.
 Proof. intros. now apply (image_data_rt c bs n). Qed.
 Print Assumptions image_data_roundtrip.
+
+(* ------------------------------------------------------------------ Stage 2: leaf payload classes (Psd/Leaf.v)
+   ByteElement, IntegerElement / ProtectedSetting, ShortIntegerElement, BooleanElement, StringElement,
+   EmptyElement, Bytes, SectionDividerSetting, SheetColorSetting, ReferencePoint,
+   ChannelBlendingRestrictionsSetting, Color, FilterMask, image_resources.Byte / Integer / ShortInteger:
+   X.frombytes(x.tobytes(padding=p)) = x, for every padding p > 0 *)
+Theorem leaf_roundtrip : forall pad l bs n,
+  0 < pad -> wf_leaf l = true -> write_leaf pad l = Ok (bs, n) -> read_leaf (kind_of l) bs = Ok l.
+Proof. exact leaf_rt. Qed.
+Print Assumptions leaf_roundtrip.
+
+(* ... and as the payload of a TaggedBlock, whatever the version, the block padding, the key *)
+Theorem typed_block_roundtrip : forall v pad sg key l bs n rest,
+  (pad = 1 \/ pad = 2 \/ pad = 4) -> memz sg model_tb_sigs = true -> wf_leaf l = true ->
+  write_typed_block v pad sg key l = Ok (bs, n) ->
+  read_typed_block (kind_of l) v pad (bs ++ rest) = Ok (Some (sg, key, l, rest)).
+Proof. exact typed_block_rt. Qed.
+Print Assumptions typed_block_roundtrip.
+
+Example leaf_roundtrip_satisfiable :
+  wf_leaf (LSectionDivider 1 (Some sig_8BIM) (Some 1885434739) (Some 4294967295)) = true /\
+  (exists bs n, write_leaf 4 (LSectionDivider 1 (Some sig_8BIM) (Some 1885434739) (Some 4294967295)) = Ok (bs, n) /\ n = 16) /\
+  wf_leaf (LString [55357; 56832; 65]) = true /\
+  (exists bs n, write_leaf 4 (LString [55357; 56832; 65]) = Ok (bs, n) /\ n = 12).
+Proof.
+  split; [reflexivity|]. split; [do 2 eexists; split; vm_compute; reflexivity|]. split; [reflexivity|].
+  do 2 eexists; split; vm_compute; reflexivity.
+Qed.
+
+(* what wf_leaf excludes: a SectionDividerSetting with a signature but no blend mode (or a sub type alone)
+   writes only its kind; a Bytes value longer than 4 bytes is cut by the reader.  Not documents: the parts
+   contradict each other / exceed the on-disk width. *)
+Theorem leaf_roundtrip_refuted :
+  (exists l bs n, l = LSectionDivider 0 (Some sig_8BIM) None None /\ write_leaf 4 l = Ok (bs, n) /\
+                  read_leaf (kind_of l) bs = Ok (LSectionDivider 0 None None None)) /\
+  (exists l bs n, l = LSectionDivider 0 None None (Some 7) /\ write_leaf 4 l = Ok (bs, n) /\
+                  read_leaf (kind_of l) bs = Ok (LSectionDivider 0 None None None)) /\
+  (exists l bs n, l = LBytes [1; 2; 3; 4; 5] /\ write_leaf 4 l = Ok (bs, n) /\
+                  read_leaf (kind_of l) bs = Ok (LBytes [1; 2; 3; 4])).
+Proof.
+  split; [|split]; do 3 eexists; (split; [reflexivity|]); split; vm_compute; reflexivity.
+Qed.
+Print Assumptions leaf_roundtrip_refuted.
+
+(* ------------------------------------------------------------------ Stage 2: the descriptor family (Psd/Descriptor.v)
+   Descriptor / GlobalObject / ObjectArray, List / Reference, Property, UnitFloat(s), Double, Class1-3, String,
+   EnumeratedReference, Offset, Bool, LargeInteger, Integer / Identifier / Index, Enumerated, RawData / Alias /
+   Path, Name - nested to ANY depth, any number of items; the `_TERMS` rule is explicit state: for every term set
+   [t] made of 4-byte codes, reading what was written under [t] gives the value back and leaves [t] unchanged
+   (the reader only adds a key it meets with length 0 and does not know: the writer never produces one). *)
+Theorem descriptor_roundtrip : forall units t d bs n rest fuel,
+  wf_terms t = true -> wf_dval units d = true ->
+  write_dval t d = Ok (bs, n) -> (dsize d <= fuel)%nat ->
+  read_dval units fuel t (ostype_of d) (bs ++ rest) = Ok (d, t, rest).
+Proof. intros units t d bs n rest fuel Hw Hd H Hf. exact (dval_rt units t Hw d Hd bs n rest fuel H Hf). Qed.
+Print Assumptions descriptor_roundtrip.
+
+(* the fuel the entry points pass (one more than the number of bytes) always suffices *)
+Theorem descriptor_fuel : forall t d bs n, write_dval t d = Ok (bs, n) -> (dsize d <= length bs)%nat.
+Proof. exact dsize_le. Qed.
+Print Assumptions descriptor_fuel.
+
+(* DescriptorBlock / DescriptorBlock2 (version fields, body, padding to any p > 0) *)
+Theorem descriptor_block_roundtrip : forall units t pad blk bs n,
+  0 < pad -> wf_terms t = true -> wf_dblock units blk = true -> write_dblock t pad blk = Ok (bs, n) ->
+  read_dblock units (match blk with DBlock _ _ => false | DBlock2 _ _ _ => true end) t bs = Ok (blk, t).
+Proof. exact dblock_rt. Qed.
+Print Assumptions descriptor_block_roundtrip.
+
+Definition ex_desc : dval :=
+  DDesc OS_Objc [65; 66] [110; 117; 108; 108]
+    [([69; 110; 97; 98], DBool true);
+     ([108; 111; 110; 103; 101; 114; 95; 107; 101; 121], DList OS_VlLs [DInt OS_long (-1); DString [55357; 56832];
+        DDesc OS_GlbO [] [120] [([97], DUnitFloat 592476532 4607182418800017408); ([98], DRaw OS_tdta [1; 2; 3])]]);
+     ([79; 102; 115; 116], DObjArr 2 [] [79; 98; 65; 114] [([75], DUnitFloats 592476532 [0; 1])])].
+Example descriptor_roundtrip_satisfiable :
+  wf_terms [[69; 110; 97; 98]; [79; 102; 115; 116]] = true /\ wf_dval [592476532] ex_desc = true /\
+  (exists bs n, write_dval [[69; 110; 97; 98]; [79; 102; 115; 116]] ex_desc = Ok (bs, n) /\ n = 194) /\ dsize ex_desc = 10%nat.
+Proof.
+  split; [reflexivity|]. split; [vm_compute; reflexivity|]. split; [|reflexivity].
+  do 2 eexists. split; vm_compute; reflexivity.
+Qed.
+
+(* an empty key (or class id) has no faithful encoding: length 0 means "a 4-byte term follows", so the reader
+   swallows the next four bytes - and records them as a new term: the term set grows *)
+Theorem descriptor_roundtrip_refuted :
+  exists d bs n d' t', d = DEnum [] [65; 66; 67; 68; 69] /\ write_dval [] d = Ok (bs, n) /\
+    read_dval [] (S (length bs)) [] (ostype_of d) bs = Ok (d', t', []) /\ d' <> d /\ t' = [[0; 0; 0; 5]].
+Proof.
+  do 5 eexists. split; [reflexivity|]. split; [vm_compute; reflexivity|]. split; [vm_compute; reflexivity|].
+  split; [discriminate|reflexivity].
+Qed.
+Print Assumptions descriptor_roundtrip_refuted.
+
+(* ------------------------------------------------------------------ Stage 2: EffectsLayer and its seven effect records
+   (Psd/Effects.v): CommonStateInfo, ShadowInfo (drop / inner), OuterGlowInfo, InnerGlowInfo, BevelInfo (version 2
+   with its real highlight / shadow colours: the record repaired by cde6d2c, F-C01-1), SolidFillInfo *)
+Theorem effect_record_roundtrip : forall e bs n rest,
+  wf_effect e = true -> write_effect e = Ok (bs, n) -> read_effect (effect_kind e) (bs ++ rest) = Ok e.
+Proof. exact effect_rt. Qed.
+Print Assumptions effect_record_roundtrip.
+
+Theorem effects_layer_roundtrip : forall l bs n,
+  wf_effects l = true -> write_effects l = Ok (bs, n) -> read_effects bs = Ok l.
+Proof. exact effects_rt. Qed.
+Print Assumptions effects_layer_roundtrip.
+
+Definition ex_bevel : effect :=
+  FxBevel 2 (-30) 5 7 1852797549 1836411936 (0, [65535; 0; 0; 0]) (7, [-1; 2; -3; 4]) 1 2 3 1 0 1
+          (Some ((0, [1; 2; 3; 0]), (8, [100; 0; 0; 0]))).
+Example effects_layer_roundtrip_satisfiable :
+  wf_effects (mkFX 0 [(FX_cmnS, FxCommon 0 1); (FX_bevl, ex_bevel);
+                      (FX_oglw, FxOuterGlow 2 1 2 (0, [1; 2; 3; 4]) 1852797549 1 255 (Some (0, [0; 0; 0; 0])))]) = true /\
+  exists bs n, write_effects (mkFX 0 [(FX_cmnS, FxCommon 0 1); (FX_bevl, ex_bevel);
+                      (FX_oglw, FxOuterGlow 2 1 2 (0, [1; 2; 3; 4]) 1852797549 1 255 (Some (0, [0; 0; 0; 0])))]) = Ok (bs, n) /\ n = 168.
+Proof. split; [vm_compute; reflexivity|]. do 2 eexists. split; vm_compute; reflexivity. Qed.
+
+(* version-dependent trailers must agree with the version: an OuterGlowInfo of version < 2 that carries a native
+   colour writes it (`if self.native_color`) and does not read it back (`if version >= 2`) *)
+Theorem effect_record_roundtrip_refuted :
+  exists e bs n e', e = FxOuterGlow 0 1 2 (0, [1; 2; 3; 4]) 1852797549 1 255 (Some (0, [9; 9; 9; 9])) /\
+    write_effect e = Ok (bs, n) /\ read_effect (effect_kind e) bs = Ok e' /\ e' <> e.
+Proof.
+  do 4 eexists. split; [reflexivity|]. split; [vm_compute; reflexivity|]. split; [vm_compute; reflexivity|]. discriminate.
+Qed.
+Print Assumptions effect_record_roundtrip_refuted.
 
 (* back-patching the length = emitting the inner bytes after the packed length *)
 Theorem length_block_backpatch : forall buf lb body,
